@@ -20,13 +20,14 @@ META = {
     "id": "C15",
     "coq_targets": ["Props/C15.vo", "Extract/Extract_C15.vo"],
     "technique": "Coq proof (soundness, saturation and completeness of a fuelled upward search inside the finite node universe; arithmetic of range(0, dim, chunk) tilings; product of per-axis tilings) + differential correspondence of the extracted model with the implementation",
-    "level_text": "Theorems C15_closure / C15_parent_closed / C15_geff_graph / C15_csv_rows / C15_seg / C15_seg_any_chunks / C15_chunks / C15_chunks_nd hold for every finite digraph (no forest shape assumed), every selection of its nodes, every array shape with non-empty axes and every positive chunk size; the hand-written model is tied to /repo by running the extracted model and the implementation (filter_graph_with_ancestors directly, export_to_csv and export_to_geff through files read back from disk) on the same generated graphs, selections and label arrays and comparing node sets, parent column, edge sets and every pixel. C15_filter_is_generated(_partial): filter_graph_with_ancestors of the model equals, for all arguments, the code translated on every run from the current _utils.py (Gen/SubsetUtils_gen.v; fail-closed translator).",
+    "level_text": "Theorems C15_closure / C15_parent_closed / C15_geff_graph / C15_csv_rows / C15_seg / C15_seg_any_chunks / C15_chunks / C15_chunks_nd hold for every finite digraph (no forest shape assumed), every selection of its nodes, every array shape with non-empty axes and every positive chunk size; the hand-written model is tied to /repo by running the extracted model and the implementation (filter_graph_with_ancestors directly, export_to_csv and export_to_geff through files read back from disk) on the same generated graphs, selections and label arrays and comparing node sets, parent column, edge sets and every pixel. C15_filter_is_generated(_partial): filter_graph_with_ancestors of the model equals, for all arguments, the code translated on every run from the current _utils.py (Gen/SubsetUtils_gen.v; fail-closed translator). Source tie: the export side of the model (CSV rows and header, the relabelled label image with its dtype choice and the empty selection, GEFF subgraph and the chunk loop masking the array, split_position_attr, FeatureDict dump / from_json) equals, for all arguments, the code translated on every run from csv/_export.py, geff/_export.py, internal_format.py and _feature_dict.py (Gen/ExportPipeline_gen.v; Proofs/ExportTie.v, 21 closed theorems); every file write is an event carrying exactly the value handed to the writer.",
     "level_note": "Trusted: Coq kernel, extraction (ExtrOcamlBasic), OCaml driver, Python harness. Modelled not verified: networkx (nx.ancestors = breadth-first upward search, DiGraph.subgraph, predecessor order), numpy (isin/where, basic slicing, C-order flattening), zarr slice assignment and fill value 0, geff.write, pandas DataFrame/to_csv. The model of the chunk loop is pointwise: a pixel covered by some visited block holds the masked label, an uncovered pixel holds the fill value 0; the tiling theorems show every pixel is covered. Tied to the source in a second way: filter_graph_with_ancestors is re-translated on every run (harness/translate_pure.py + translate_utils.py, fail closed; sets as duplicate-free lists) and proved equal to the model (Proofs/SubsetTie.v).",
     "design_ref": "DESIGN.md section 9 (C15)",
     "assumptions": ["every edge end point is a node of the graph (always true of a networkx graph) and the selection is a subset of the nodes (nx.ancestors raises NetworkXError otherwise)",
                     "segmentation axes are non-empty; labels equal node ids",
                     "export_to_csv with an EMPTY selection raises KeyError (pandas: no columns in an empty frame) - the empty selection is therefore exercised for filter_graph_with_ancestors and export_to_geff only; counted in stats.csv_empty_selection_raises"],
-    "trusted": ["translator harness/translate_pure.py + translate_utils.py (closed idiom table; fail closed) with coq/Model/PyRt2.v (sets = duplicate-free lists)",
+    "trusted": ["translator harness/translate_export.py (closed idiom table; fail closed) with coq/Model/PyRt7.v, Model/ExportImage.v",
+                "translator harness/translate_pure.py + translate_utils.py (closed idiom table; fail closed) with coq/Model/PyRt2.v (sets = duplicate-free lists)",
                 "networkx: predecessor iteration order is passed to the model as the order of the edge list",
                 "zarr/geff/pandas/csv readers used to read the exported files back"],
 }
@@ -310,6 +311,12 @@ def pre_build(ctx):
     ok, msg = translate_utils.regenerate()
     if not ok:
         raise RuntimeError("translator refused _utils.py: %s" % msg)
+    # re-translate the export side (Gen/ExportPipeline_gen.v, tied by Proofs/ExportTie.v)
+    import translate_export
+
+    ok, msg = translate_export.regenerate()
+    if not ok:
+        raise RuntimeError("translator refused the export sources: %s" % msg)
 
 
 def run(ctx):
@@ -356,6 +363,44 @@ def run(ctx):
             c["keep"] = sorted(filter_graph_with_ancestors(g, selection_arg(rng, sel)))
             stats["filter_digraph"] += 1
             stats["cyclic_digraphs"] += int(not nx.is_directed_acyclic_graph(g))
+            cases.append(c)
+        # ---- ZB: large selections over sparse ids (numpy's isin switches algorithm with the size of the kept
+        #          set and the spread of the ids): two or three chains over 36-70 frames, ids = 1000 * t + label
+        for bi in range(2 if quick else 14):
+            L = rng.randint(36, 70)
+            nch = rng.choice([2, 3])
+            times, edges = {}, []
+            for c in range(1, nch + 1):
+                prev = None
+                for t in range(L):
+                    if rng.random() < 0.06 and prev is not None and t < L - 1:
+                        continue  # a gap: frame-skipping edge
+                    n = 1000 * t + c
+                    times[n] = t
+                    if prev is not None:
+                        edges.append((prev, n))
+                    prev = n
+            side = rng.choice([6, 8])
+            seg = np.zeros((L, side, side), dtype=rng.choice([np.int32, np.int64, np.uint32]))
+            for n, t in times.items():
+                c = n % 1000
+                seg[t, (c - 1) * 2:(c - 1) * 2 + 2, 0:rng.randint(2, side)] = n
+            tracks = make_tracks(times, edges, seg=seg)
+            g = tracks.graph
+            ends = [max(n for n in times if n % 1000 == c) for c in range(1, nch + 1)]
+            sel = [rng.choice(ends)] if rng.random() < 0.6 else rng.sample(sorted(times), rng.randint(1, 3))
+            seg_in = np.array(tracks.segmentation)
+            c = {"kind": "Z", "g": g, "sel": sel, "line": model_line("Z", g, sel, seg_in), "times": times, "api": "geff",
+                 "seg_in": seg_in}
+            d = root / ("b%d" % bi)
+            try:
+                c["gnodes"], c["gedges"], c["seg_out"] = run_geff(tracks, set(sel), d)
+            except Exception as e:  # noqa: BLE001
+                c["gnodes"] = None
+                c["exc"] = "%s: %s" % (type(e).__name__, str(e)[:120])
+            shutil.rmtree(d, ignore_errors=True)
+            stats["geff_seg"] += 1
+            stats["geff_large_sparse"] = stats.get("geff_large_sparse", 0) + 1
             cases.append(c)
         # ---- Z: export_to_geff with / without segmentation
         for zi in range(n_z):
